@@ -92,7 +92,7 @@ def main():
         ],
         'checks': checks,
         'not_applicable': na,
-        'notes': 'All checks: ./check.sh <id> <tier> rebuilds harness/cmd/vcheck against /repo (replace directive) and runs it; evidence is written by vcheck itself. Self-test of detection: selftest/run.py; seeded changes from independent agents: seeded/.',
+        'notes': 'All checks: ./check.sh <id> <tier> rebuilds harness/cmd/vcheck against /repo (replace directive) and runs it; evidence is written by vcheck itself. Self-test of detection: selftest/run.py; seeded property-breaking changes from independent agents: seeded/ (tools/run_all_seeds.py); behaviour-preserving changes from independent agents that must leave every check silent: benign/ (tools/run_all_benign.sh). Build configurations: amd64, GOARCH=386, -tags debug, plus any configuration that compiles a file the default build ignores (cmd/vconfigs).',
     }
     json.dump(m, open('/verif/MANIFEST.json', 'w'), indent=1)
     try:
